@@ -67,3 +67,41 @@ package types
 //@   loop 3 invariant 0 <= $i && $i <= len(bridge.Proposals)
 //@   loop 3 invariant forall u int :: 0 <= u && u < $i ==> bridge.Proposals[u].OutputIndex != 0 && len(bridge.Proposals[u].OutputProposal.OutputRoot) == 32
 //@   assigns \nothing
+
+// Fan-out wrapper through which bridge hooks are registered: every member receives the same notification,
+// in order, and the first failure is returned.
+
+//@ func (BridgeHooks) BridgeCreated
+//@   loop 0 invariant 0 <= $i && $i <= len(hooks) && $hookCount == $i && !$hookFailed
+//@   loop 0 invariant $hookAll("BridgeCreated", bridgeId, bridgeConfig)
+//@   ensures $hookAll("BridgeCreated", bridgeId, bridgeConfig)                              // C19: fanout_forwards_the_same_notification
+//@   ensures $hookFailed ==> err != nil                                                           // C19: fanout_returns_the_first_failure
+//@   ensures err == nil ==> $hookCount == len(hooks)                                              // C19: fanout_reaches_every_hook
+
+//@ func (BridgeHooks) BridgeChallengerUpdated
+//@   loop 0 invariant 0 <= $i && $i <= len(hooks) && $hookCount == $i && !$hookFailed
+//@   loop 0 invariant $hookAll("BridgeChallengerUpdated", bridgeId, bridgeConfig)
+//@   ensures $hookAll("BridgeChallengerUpdated", bridgeId, bridgeConfig)                              // C19: fanout_forwards_the_same_notification
+//@   ensures $hookFailed ==> err != nil                                                           // C19: fanout_returns_the_first_failure
+//@   ensures err == nil ==> $hookCount == len(hooks)                                              // C19: fanout_reaches_every_hook
+
+//@ func (BridgeHooks) BridgeProposerUpdated
+//@   loop 0 invariant 0 <= $i && $i <= len(hooks) && $hookCount == $i && !$hookFailed
+//@   loop 0 invariant $hookAll("BridgeProposerUpdated", bridgeId, bridgeConfig)
+//@   ensures $hookAll("BridgeProposerUpdated", bridgeId, bridgeConfig)                              // C19: fanout_forwards_the_same_notification
+//@   ensures $hookFailed ==> err != nil                                                           // C19: fanout_returns_the_first_failure
+//@   ensures err == nil ==> $hookCount == len(hooks)                                              // C19: fanout_reaches_every_hook
+
+//@ func (BridgeHooks) BridgeBatchInfoUpdated
+//@   loop 0 invariant 0 <= $i && $i <= len(hooks) && $hookCount == $i && !$hookFailed
+//@   loop 0 invariant $hookAll("BridgeBatchInfoUpdated", bridgeId, bridgeConfig)
+//@   ensures $hookAll("BridgeBatchInfoUpdated", bridgeId, bridgeConfig)                              // C19: fanout_forwards_the_same_notification
+//@   ensures $hookFailed ==> err != nil                                                           // C19: fanout_returns_the_first_failure
+//@   ensures err == nil ==> $hookCount == len(hooks)                                              // C19: fanout_reaches_every_hook
+
+//@ func (BridgeHooks) BridgeMetadataUpdated
+//@   loop 0 invariant 0 <= $i && $i <= len(hooks) && $hookCount == $i && !$hookFailed
+//@   loop 0 invariant $hookAll("BridgeMetadataUpdated", bridgeId, bridgeConfig)
+//@   ensures $hookAll("BridgeMetadataUpdated", bridgeId, bridgeConfig)                              // C19: fanout_forwards_the_same_notification
+//@   ensures $hookFailed ==> err != nil                                                           // C19: fanout_returns_the_first_failure
+//@   ensures err == nil ==> $hookCount == len(hooks)                                              // C19: fanout_reaches_every_hook
